@@ -1,2 +1,3 @@
 import WrglModel.Props.C04
-#print axioms Wrgl.C04_placeholder
+#print axioms Wrgl.C04_fact_emptyGuard
+#print axioms Wrgl.C04_diff_exact
